@@ -3,6 +3,7 @@ package tree
 import (
 	"bytes"
 	_ "embed"
+	"errors"
 	"fmt"
 	"io"
 	"os"
@@ -59,8 +60,12 @@ func NewHTML(htmlContent utils.ContentInput, baseUrl string, urlFetcher utils.Ur
 	var out HTML
 	// html.Parse wraps the <html> tag
 	out.Root = (*utils.HTMLNode)(root.FirstChild)
-	if out.Root.Type == html.DoctypeNode {
+	// skip the doctype and the comments before the root element
+	for out.Root != nil && out.Root.Type != html.ElementNode {
 		out.Root = (*utils.HTMLNode)(out.Root.NextSibling)
+	}
+	if out.Root == nil {
+		return nil, errors.New("invalid html input : no root element")
 	}
 	out.Root.Parent = nil
 	out.BaseUrl = utils.FindBaseUrl(root, result.BaseUrl)
